@@ -38,14 +38,30 @@ Definition cross_report (n dim : nat) (N : net K) (gam : list (list K)) : option
 Definition tensor_symb (dim : nat) (X : list (list K)) : bool :=
   forallb (fun a => forallb (fun b => reqb K (ent X a b) (ent X b a)) (seq 0 dim)) (seq 0 dim).
 
+(* block matrix R (+) R acting on displacement lists ds ++ dv *)
+Definition blk_ent (dim : nat) (R : list (list K)) (k a : nat) : K :=
+  if Nat.ltb k dim then (if Nat.ltb a dim then ent R k a else r0 K)
+  else (if Nat.ltb a dim then r0 K else ent R (k - dim) (a - dim)).
+
+Definition blk (dim : nat) (R : list (list K)) : list (list K) :=
+  map (fun k => map (fun a => blk_ent dim R k a) (seq 0 (dim + dim))) (seq 0 (dim + dim)).
+
+(* every listed operation (R, p, q): q inverts p on the n states and (R (+) R, p) maps the two-species network onto itself *)
+Definition ops_okb (dim n : nat) (N : net K) (ops : list (list (list K) * list nat * list nat)) : bool :=
+  forallb (fun o => let '(R, p, q) := o in
+                    Nat.eqb (length p) n && Nat.eqb (length q) n && inverseb n p q &&
+                    isob (dim + dim) (blk dim R) (permfun p) N) ops.
+
 (* decision reported to the harness for one exact pair chain:
-   4 certificate rejected; 5 implementation's cross tensor (integer enclosure lo..hi) does not contain the exact one;
+   4 certificate rejected; 6 some operation of the group does not map the chain onto itself; 5 implementation's cross tensor (integer enclosure lo..hi) does not contain the exact one;
    10 + 2*[group has no invariant antisymmetric tensor] + [exact cross tensor symmetric] otherwise *)
-Definition cross_code (n dim : nat) (N : net K) (gam : list (list K)) (Rs : list (list (list K)))
+Definition cross_code (n dim : nat) (N : net K) (gam : list (list K)) (ops : list (list (list K) * list nat * list nat))
            (lo hi : list (list K)) : nat :=
+  let Rs := map (fun o => fst (fst o)) ops in
   match cross_report n dim N gam with
   | None => 4
   | Some X =>
+      if negb (ops_okb dim n N ops) then 6 else
       if forallb (fun a => forallb (fun b => in_bounds lo hi a b (ent X a b)) (seq 0 dim)) (seq 0 dim)
       then 10 + (if no_axialb dim Rs then 2 else 0) + (if tensor_symb dim X then 1 else 0)
       else 5
@@ -56,3 +72,4 @@ End TensorSym.
 Arguments ent {K} _ _ _. Arguments minor {K} _ _ _ _ _. Arguments no_axialb {K} _ _.
 Arguments invariant {K} _ _ _. Arguments asym {K} _ _ _. Arguments cross_report {K} _ _ _ _.
 Arguments tensor_symb {K} _ _. Arguments cross_code {K} _ _ _ _ _ _ _.
+Arguments blk_ent {K} _ _ _ _. Arguments blk {K} _ _. Arguments ops_okb {K} _ _ _ _.
